@@ -9,6 +9,13 @@ pub mod alloc {
     pub use crate::alloc::{AllocError, AllocProxy, Allocator, CaoLangAllocator, SysAllocator};
 }
 
+/// The interpreter's own reader of a string operand: what `StringLiteral`, property names and
+/// native function names go through at run time (None = the VM can not read a string there).
+pub fn read_str(offset: usize, data: &[u8]) -> Option<&str> {
+    let mut p = offset;
+    crate::vm::instr_execution::read_str(&mut p, data)
+}
+
 /// The crate's own decoder of a string of the data section: (bytes consumed, text).
 /// The harness' bytecode verifier uses it so that it does not depend on the string encoding.
 pub fn decode_str(bts: &[u8]) -> Option<(usize, &str)> {
